@@ -77,6 +77,17 @@ Check C19_input_error_iff_bad_json : forall stdin flags,
   fst (read_inputs stdin flags) = None <-> existsb is_bad (sources stdin flags) = true.
 Print Assumptions C19_input_error_iff_bad_json.
 
+(* Inputs are read before the script is looked at: an invalid source alone decides the outcome
+   (exit 1, no object), whatever the script is. *)
+Theorem C19_bad_input_exits_1 : forall eval m of stdin flags prog,
+  existsb is_bad (sources (stdin_for m stdin) flags) = true ->
+  cli_run eval m of stdin flags prog = cli_fail 1.
+Proof. exact bad_input_exits_1. Qed.
+Check C19_bad_input_exits_1 : forall eval m of stdin flags prog,
+  existsb is_bad (sources (stdin_for m stdin) flags) = true ->
+  cli_run eval m of stdin flags prog = cli_fail 1.
+Print Assumptions C19_bad_input_exits_1.
+
 (* ======================================================================================= *)
 (* the outputs object                                                                       *)
 (* ======================================================================================= *)
@@ -202,6 +213,33 @@ Check C19_value_k_numbering : forall stdin flags maps,
   unnamed_names (sources stdin flags) maps =
   map value_key (seq 1 (length (unnamed_names (sources stdin flags) maps))).
 Print Assumptions C19_value_k_numbering.
+
+(* Loading does not depend on the heap: [loadable] (a function whose printed body re-parses, a
+   known built-in name, and recursively) decides whether to_value succeeds.  An object then
+   contributes exactly its loadable entries, in order — the observed corner that an entry whose
+   function source does not load is DROPPED SILENTLY — and a non-object value gets the next
+   value_k iff it loads. *)
+Theorem C19_object_contributes_loadable_entries : forall es st acc,
+  map fst (fst (load_entries st acc es)) =
+  fold_left add_key (map fst (filter (fun kv => loadable (snd kv)) es)) (map fst acc).
+Proof. exact load_entries_keys. Qed.
+Check C19_object_contributes_loadable_entries : forall es st acc,
+  map fst (fst (load_entries st acc es)) =
+  fold_left add_key (map fst (filter (fun kv => loadable (snd kv)) es)) (map fst acc).
+Print Assumptions C19_object_contributes_loadable_entries.
+
+Theorem C19_non_object_named_iff_loadable : forall st n sv,
+  fst (fst (parse_json_inputs st n (IVal sv))) <> None /\
+  snd (parse_json_inputs st n (IVal sv)) = (if loadable sv then S n else n) /\
+  option_map (map fst) (fst (fst (parse_json_inputs st n (IVal sv)))) =
+    Some (if loadable sv then [value_key (S n)] else []).
+Proof. exact parse_json_inputs_IVal. Qed.
+Check C19_non_object_named_iff_loadable : forall st n sv,
+  fst (fst (parse_json_inputs st n (IVal sv))) <> None /\
+  snd (parse_json_inputs st n (IVal sv)) = (if loadable sv then S n else n) /\
+  option_map (map fst) (fst (fst (parse_json_inputs st n (IVal sv)))) =
+    Some (if loadable sv then [value_key (S n)] else []).
+Print Assumptions C19_non_object_named_iff_loadable.
 
 (* example: overlap, two non-objects, an unloadable function entry (dropped), stdin first *)
 Example C19_ex_merge :
